@@ -126,6 +126,21 @@ func runAKAHistory(hi int, h hmap) {
 		switch kind {
 		case "challenge":
 			rnd := hx(str(op, "rand"))
+			if (oi+hi)%3 == 0 {
+				// the home environment provisions another subscriber in between: what GenerateOPC returned
+				// for this one earlier belongs to the caller and stays what it was
+				k2, op2 := append([]byte{}, rnd...), append([]byte{}, k...)
+				k2[0] ^= 0x5a
+				o2, e2 := milenage.GenerateOPC(in("k", k2), in("op", op2))
+				checkIns(oi, "GenerateOPC")
+				if want := crypto.OPc(k2, op2); e2 != nil || !bytes.Equal(o2, want) {
+					fail(oi, "aka.opc", "GenerateOPC", "another subscriber: OPc %x (err %v), TS 35.206 gives %x", o2, e2, want)
+				}
+				if !bytes.Equal(opc, refOPc) {
+					fail(oi, "aka.opc-retained", "GenerateOPC", "the OPc returned earlier for this subscriber turned from %x into %x when another subscriber's OPc was computed", refOPc, opc)
+					opc = append([]byte{}, refOPc...)
+				}
+			}
 			sqnHE = inc48(sqnHE, uint64(num(op, "delta", 1)))
 			autn, ik, ck, ak, res := make([]byte, 16), make([]byte, 16), make([]byte, 16), make([]byte, 6), make([]byte, 8)
 			rl := uint(8)
